@@ -96,8 +96,9 @@ func (w *World) pickTarget(t *rapid.T, s *appstate.AppState, sender *Actor, pref
 			return &a, rel
 		}
 	case "invitee":
-		if len(id.Invitees) > 0 {
-			a := id.Invitees[rapid.IntRange(0, len(id.Invitees)-1).Draw(t, "inviteeIdx")].Address
+		// the relation is stored twice (the inviter's list, the invitee's inviter record): both views are used
+		if xs := w.inviteesOf(s, sender, id); len(xs) > 0 {
+			a := xs[rapid.IntRange(0, len(xs)-1).Draw(t, "inviteeIdx")]
 			return &a, rel
 		}
 	case "delegatee":
@@ -438,7 +439,30 @@ func (w *World) GenTx(t *rapid.T, r *Replica, only []types.TxType) (*types.Trans
 	}
 
 	// hostile deviations
-	switch rapid.IntRange(0, 40).Draw(t, "hostile") - 27 {
+	switch rapid.IntRange(0, 42).Draw(t, "hostile") - 27 {
+	case 14:
+		// money fields below zero exist only on objects built inside the node (RPC, own code): the wire drops the sign.
+		// A negative amount that the other fields make up for keeps the total cost non-negative.
+		neg := big.NewInt(-1)
+		if a := genAmount(t, new(big.Int).Add(bal, big.NewInt(1000)), "negativeAmount"); a != nil && a.Sign() > 0 {
+			neg = new(big.Int).Neg(a)
+		}
+		tx.Amount = neg
+		if rapid.Bool().Draw(t, "compensatedByTips") {
+			tx.Tips = new(big.Int).Neg(neg)
+		} else {
+			tx.MaxFee = new(big.Int).Add(new(big.Int).Neg(neg), curFee)
+		}
+		info.Hostile = "negative-amount"
+	case 15:
+		tx.Tips = big.NewInt(-1)
+		if a := genAmount(t, new(big.Int).Add(bal, big.NewInt(1000)), "negativeTips"); a != nil && a.Sign() > 0 {
+			tx.Tips = new(big.Int).Neg(a)
+		}
+		if rapid.Bool().Draw(t, "coveredByMaxFee") {
+			tx.MaxFee = new(big.Int).Add(new(big.Int).Neg(tx.Tips), curFee)
+		}
+		info.Hostile = "negative-tips"
 	case 13:
 		tx.Epoch = epoch + 1
 		info.Hostile = "future-epoch"
@@ -558,6 +582,26 @@ func TrueSigner(tx *types.Transaction) (common.Address, error) {
 	return crypto.PubKeyBytesToAddress(pub)
 }
 
+// inviteesOf lists the addresses related to a as invitees by either record of the relation: a's own invitee list and
+// the inviter record of every known address.
+func (w *World) inviteesOf(s *appstate.AppState, a *Actor, id state.Identity) []common.Address {
+	var xs []common.Address
+	seen := map[common.Address]bool{}
+	for _, inv := range id.Invitees {
+		if !seen[inv.Address] {
+			seen[inv.Address] = true
+			xs = append(xs, inv.Address)
+		}
+	}
+	for _, x := range w.Actors {
+		if inv := s.State.GetIdentity(x.Addr).Inviter; inv != nil && inv.Address == a.Addr && !seen[x.Addr] {
+			seen[x.Addr] = true
+			xs = append(xs, x.Addr)
+		}
+	}
+	return xs
+}
+
 // plausibleSender says whether a tx of this type from a is likely to pass the
 // type's own validator on state s (used to steer generation, never as an oracle).
 func (w *World) plausibleSender(s *appstate.AppState, a *Actor, typ types.TxType) bool {
@@ -571,8 +615,8 @@ func (w *World) plausibleSender(s *appstate.AppState, a *Actor, typ types.TxType
 	case types.KillTx:
 		return id.State == state.Verified || id.State == state.Human || id.State == state.Suspended || id.State == state.Zombie
 	case types.KillInviteeTx:
-		for _, inv := range id.Invitees {
-			if x := st.GetIdentityState(inv.Address); x == state.Invite || x == state.Candidate {
+		for _, inv := range w.inviteesOf(s, a, id) {
+			if x := st.GetIdentityState(inv); x == state.Invite || x == state.Candidate {
 				return true
 			}
 		}
